@@ -109,3 +109,34 @@ CONTRACTS.update(
         ),
     }
 )
+
+# ---------------------------------------------------------------------------------------------- get_tokens_bounded_by (41 direct users)
+RNG_START = "forall(lambda k: 0 <= lNewStart[k] and lNewStart[k] <= len(lAllObjects), 0, len(lNewStart))"
+CONTRACTS.update(
+    {
+        "vsg.token_map.New.get_token_pair_indexes": stub(
+            types={"oStart": "obj", "oEnd": "obj"},
+            returns="tuple[list[int],list[int]]",
+            ensures=["len(result[0]) == len(result[1])", IN_RANGE.format(L="result[0]", A="gall"), IN_RANGE.format(L="result[1]", A="gall")],
+        ),
+        "vsg.token_map.New.get_index_of_carriage_return_before_index": stub(types={"iIndex": "int"}, returns="opt[int]", ensures=["implies(result is not None, -1 <= result and result < len(gall))"]),
+        "vsg.token_map.New.get_index_of_carriage_return_after_index": stub(types={"iIndex": "int"}, returns="int", raises=["IndexError"], ensures=["0 <= result and result < len(gall)"]),
+        "vsg.vhdlFile.extract.get_tokens_bounded_by.get_tokens_bounded_by": dict(
+            types={"oStart": "obj", "oEnd": "obj", "lAllObjects": "list[%s]" % ITEM, "oTokenMap": MAP, "include_trailing_whitespace": "bool", "bExcludeLastToken": "bool", "bIncludeTillEndOfLine": "bool", "bIncludeTillBeginningOfLine": "bool"},
+            requires=["lAllObjects == gall"],
+            returns="list[%s]" % TOI,
+            raises=["IndexError"],
+            # the position of the closing token inside the region is recorded on the region objects this call creates
+            modifies=["heap:New.sTokenValue"],
+            fields={"vsg.vhdlFile.extract.tokens.New.sTokenValue": "opt[int]"},
+            locals={"lReturn": "list[%s]" % TOI, "lNewStart": "list[int]", "lNewEnd": "list[int]"},
+            ensures=["forall(lambda k: %s, 0, len(result))" % SLICE.replace("lAllTokens", "lAllObjects").format(R="result[k]")],
+            # only the start positions matter for "the region is the slice at its recorded start": they are positions of the list
+            # (or the position behind a line break in front of one)
+            loops={
+                1: dict(invariant=[RNG_START]),
+                5: dict(invariant=[RNG_START, "forall(lambda k: %s, 0, len(lReturn))" % SLICE.replace("lAllTokens", "lAllObjects").format(R="lReturn[k]")]),
+            },
+        ),
+    }
+)
